@@ -64,6 +64,10 @@ def main(prop, tier, vseed, replay=None):
     if replay:
         with open(replay) as f:
             payload = json.load(f)
+        if payload.get('spec') is None:
+            # a pooled statistic over the whole plan has no single-run replay: re-run the plan of that tier
+            print('replay of a pooled statistic: re-running the whole %s plan' % payload.get('tier', tier))
+            return main(prop, payload.get('tier', tier), vseed, None)
         jobs = [{'profile': 'replay', 'seed': payload['spec']['seed'], 'spec': payload['spec']}]
         if payload.get('job', {}).get('fault'): jobs[0]['fault'] = payload['job']['fault']
     else:
@@ -142,6 +146,17 @@ def main(prop, tier, vseed, replay=None):
                 oracle_timeouts += 1     # that run is inconclusive (counted), the check is not
             else:
                 harness_errors.append('%s %s seed=%s %s' % (p, r['job']['profile'], r['job']['seed'], msg[-300:]))
+    if prop == 'C09' and replay is None:
+        # routing choices pooled over all runs: position j of a probabilistic router's list is taken with its declared probability
+        for j in range(6):
+            S_, V_ = agg.get('C09.agg.S%d' % j, 0.0), agg.get('C09.agg.V%d' % j, 0.0)
+            if V_ > 25:
+                agg['C09.pooled_frequency_tests'] += 1
+                z = S_ / V_ ** 0.5
+                if abs(z) > 6.0:
+                    viol_paths.append(runner.write_replay(prop, 'pooled_choice_frequency_far_from_probability',
+                                      {'property': prop, 'code': 'pooled_choice_frequency_far_from_probability', 'tier': tier, 'spec': None,
+                                       'witness': {'position_in_router_list': j, 'sum_observed_minus_expected': S_, 'variance': V_, 'z': z, 'runs': evaluated}}))
     open_k = taint.open_findings()
     for kid, n in tainted.items():
         if prop in open_k[kid]['properties']:
